@@ -59,10 +59,14 @@ CLAIMS = {
         cat="other",
         text="Only the first sentence (no source text) is decided: on the loop-body paths without offset updater, overlap or "
         "unbalanced verdict exactly one piece before+T[start:end]+after is emitted with the annotation's own offsets and "
-        "strings, over sorted(annotations), appended at the tail. The source-text clauses (alignment, monotone in-range "
-        "translation) depend on diff-library output values and are not decided.",
-        note="Source-text clauses not decided (values of fast_diff_match_patch/difflib results and two bisections).",
-        tech="static analysis: path enumeration with symbolic versions of start/end/span; def-use of before/after; iteration-source check",
+        "strings, over sorted(annotations), appended at the tail. Of the source-text clauses the monotonicity of the offset "
+        "translation is decided for every sequence of diff steps (append-only range table + inductive invariant of the "
+        "table-building fold, checked per path in linear arithmetic); the alignment (exact enclosure) depends on "
+        "diff-library output values and is not decided.",
+        note="Alignment clause not decided (values of fast_diff_match_patch/difflib results and two bisections); structural necessary "
+        "conditions of it (engine configuration, bisect sides, clamped index, pure update) are checked.",
+        tech="static analysis: path enumeration with symbolic versions of start/end/span; def-use of before/after; iteration-source check; "
+        "per-path linear-arithmetic invariant check of the range-table fold",
         ref="DESIGN.md section 2/C10",
     ),
     "C11": dict(
